@@ -69,6 +69,7 @@ func c06Open(path string, corruptPage int) (*c06Handle, error) {
 }
 
 type c06Case struct {
+	hotJournal bool // a hot-looking journal (no RESERVED lock anywhere) appears before the call
 	name     string
 	exit     string // normal | stop | error-column | error-table | error-corrupt | panic
 	wantErr  bool
@@ -304,6 +305,13 @@ func c06File(run *hx.Run, probe, writer *hx.Oracle, path string, ps int) {
 		{name: "PKSelect", exit: "error-key", wantErr: true, run: func(h *c06Handle, at func()) {
 			h.hi.PKSelect("t", sqlittle.Key{}, func(sqlittle.Row) { at() }, cols...)
 		}},
+		{name: "Select", exit: "error-hot-journal", wantErr: true, hotJournal: true, run: func(h *c06Handle, at func()) {
+			h.hi.Select("t", func(sqlittle.Row) { at() }, cols...)
+		}},
+		{name: "IndexedSelectEq", exit: "error-hot-journal", wantErr: true, hotJournal: true, run: func(h *c06Handle, at func()) {
+			h.hi.IndexedSelectEq("t", "ix_t_v", sqlittle.Key{int64(919)}, func(sqlittle.Row) { at() }, cols...)
+		}},
+		{name: "Columns", exit: "error-hot-journal", wantErr: true, hotJournal: true, run: func(h *c06Handle, at func()) { h.hi.Columns("t") }},
 		{name: "Columns", exit: "normal", run: func(h *c06Handle, at func()) { h.hi.Columns("t") }},
 		{name: "Columns", exit: "error-table", wantErr: true, run: func(h *c06Handle, at func()) { h.hi.Columns("nosuchtable") }},
 	}
@@ -434,6 +442,18 @@ func c06File(run *hx.Run, probe, writer *hx.Oracle, path string, ps int) {
 					observe(fmt.Sprintf("callback[%d]", nrow))
 				}
 			}
+			if c.hotJournal {
+				// a crashed writer's journal: valid header, one sector, nobody holds RESERVED
+				// (zero records and the true size in pages: when SQLite itself rolls it back later, nothing changes)
+				j := make([]byte, 1024)
+				npages := 0
+				if fi, err := os.Stat(path); err == nil {
+					npages = int(fi.Size()) / ps
+				}
+				copy(j, []byte{0xd9, 0xd5, 0x05, 0xf9, 0x20, 0xa1, 0x63, 0xd7, 0, 0, 0, 0, 1, 2, 3, 4, byte(npages >> 24), byte(npages >> 16), byte(npages >> 8), byte(npages), 0, 0, 2, 0})
+				j[24], j[25], j[26], j[27] = byte(ps>>24), byte(ps>>16), byte(ps>>8), byte(ps)
+				os.WriteFile(path+"-journal", j, 0o644)
+			}
 			var pm string
 			func() {
 				defer func() {
@@ -452,6 +472,9 @@ func c06File(run *hx.Run, probe, writer *hx.Oracle, path string, ps int) {
 			}
 			if c.exit == "panic" && pm != "deliberate" {
 				run.Inconclusive("the deliberate callback panic did not happen")
+			}
+			if c.hotJournal {
+				os.Remove(path + "-journal")
 			}
 			ev := h.tp.Take()
 			h.tp.Hook = nil
